@@ -90,6 +90,7 @@ extern uint32_t sc_calls_seen[8];	/* per class call counters (index = bit number
 /* resource accounting (pool-owned allocations made through the wrapped calloc) */
 int	sc_live_allocs(void);
 int	sc_threads_unjoined(void);
+int	sc_join_if_unjoined(pthread_t pt);
 int	sc_open_fds(int *fds, int max);	/* snapshot of /proc/self/fd */
 int	sc_wrapped_mutex_locked_count(void);
 
